@@ -202,6 +202,9 @@ func (p c01) Gen(seed uint64, tier string, idx int) (*Case, bool) {
 		c.Reader.ErrKind = append([]string{"", "wraps-eof", "timeout", "unexpected-eof", "uncomparable"}, gosim.SentinelKinds...)[src.Intn(5+len(gosim.SentinelKinds))]
 		c.Note += "+read-fault"
 	}
+	if src.Chance(1, 6) {
+		c.SrcName = SrcNames[src.Intn(len(SrcNames))]
+	}
 	c.GenTape = nil // text-level shrinking is used for C01
 	return c, true
 }
